@@ -196,6 +196,11 @@ def main():
         chk = engine.coqchk_property(pid)
         if not chk["ok"]:
             proof_errors.append("coqchk: axioms=%s %s" % (chk["axioms"], chk["tail"]))
+        else:
+            chkb = engine.coqchk_property("Bridge")
+            chk["bridge"] = chkb
+            if not chkb["ok"]:
+                proof_errors.append("coqchk P_Bridge: axioms=%s %s" % (chkb["axioms"], chkb["tail"]))
 
     # ---- (2)+(3) tie and oracle
     rng = gen.Rng(seed)
